@@ -1,15 +1,17 @@
 import Proofs.C08.Refine
+import Proofs.C08.Sig
 /-! T3 at loop level: the btclib-shaped loop (`Btclib.loop`, byte stream, expansions, sentinel) simulates Core's
 `run` over the parsed instructions, for scripts made of covered op codes. -/
 namespace Btc.Script.Sim
-open Btc Btc.Script Btclib Refine
+open Btc Btc.Script Btclib Refine Sig
 
 /-- the relation between the two loop states: stacks equal, btclib's condition stack is Core's `vfExec` over the sentinel,
     op counts equal (btclib's transient wind-back happens inside the passes of one instruction).  The byte cursor
     (`st.s`) is tied to the instruction list by the statement of `sim`, `script_index`/`opcode_pos` are not read by any
     covered op code. -/
 def R (st : St) (c : Core.State) : Prop :=
-  st.stack = c.m.stack ∧ st.alt = c.m.alt ∧ st.cond = c.vfExec ++ [true] ∧ st.opCodeNum = (c.m.opCount : Int)
+  st.stack = c.m.stack ∧ st.alt = c.m.alt ∧ st.cond = c.vfExec ++ [true] ∧ st.opCodeNum = (c.m.opCount : Int) ∧
+  st.codesepOffset = c.m.codeStart
 
 def toOut : Core.R (List Bytes) → Out
   | .ok s => .ok s
@@ -109,33 +111,118 @@ theorem readPush_some (c : UInt8) (r : Bytes) (op : Op) (rest : Bytes) (h : getO
         refine ⟨rfl, ?_⟩
         simp only [e, ne_eq, not_true_eq_false, if_false, e2, Gen.Script.N_MAX_SCRIPT_ELEMENT_SIZE, List.drop_drop]
 
+
+/-! ### where the two cursors are: `pc` / `opcode_pos` on Core's side, `script_index` on btclib's -/
+
+theorem stepChecks_pos (cx : Core.Ctx) (st s1 : Core.State) (op : Op) (h : Core.stepChecks cx st op = .ok s1) :
+    s1.pos = st.pos + op.raw.length ∧ s1.opcodePos = st.opcodePos := by
+  unfold Core.stepChecks at h
+  split at h
+  · cases h
+  · simp only at h
+    split at h
+    · cases h
+    · split at h
+      · cases h
+      · split at h
+        · cases h
+        · cases h; exact ⟨rfl, rfl⟩
+
+theorem execConditional_pos (cx : Core.Ctx) (s1 s2 : Core.State) (t : Nat) (f : Bool)
+    (h : Core.execConditional cx s1 t f = .ok s2) : s2.pos = s1.pos ∧ s2.opcodePos = s1.opcodePos := by
+  unfold Core.execConditional at h
+  split at h
+  · split at h
+    · split at h
+      · cases h
+      · split at h
+        · cases h
+        · split at h
+          · cases h
+          · cases h; exact ⟨rfl, rfl⟩
+    · cases h; exact ⟨rfl, rfl⟩
+  · split at h
+    · split at h
+      · cases h
+      · cases h; exact ⟨rfl, rfl⟩
+    · split at h
+      · split at h
+        · cases h
+        · cases h; exact ⟨rfl, rfl⟩
+      · cases h
+
+theorem stepExec_pos (cx : Core.Ctx) (s1 s2 : Core.State) (op : Op) (f : Bool)
+    (h : Core.stepExec cx s1 op f = .ok s2) : s2.pos = s1.pos ∧ s2.opcodePos = s1.opcodePos := by
+  unfold Core.stepExec at h
+  split at h
+  · split at h
+    · cases h
+    · cases h; exact ⟨rfl, rfl⟩
+  · split at h
+    · exact execConditional_pos cx s1 s2 _ f h
+    · split at h
+      · cases hp : Core.execPlain cx s1.pos s1.opcodePos s1.m op.code with
+        | error e => rw [hp] at h; cases h
+        | ok m => rw [hp] at h; cases h; exact ⟨rfl, rfl⟩
+      · cases h; exact ⟨rfl, rfl⟩
+
+theorem stepFinish_pos (s2 s' : Core.State) (h : Core.stepFinish s2 = .ok s') :
+    s'.pos = s2.pos ∧ s'.opcodePos = s2.opcodePos + 1 := by
+  unfold Core.stepFinish at h
+  split at h
+  · cases h
+  · cases h; exact ⟨rfl, rfl⟩
+
+/-- `op_code_stops[k]` for the `k`-th instruction of the walk -/
+theorem stops_get (done : List Op) (op : Op) (rest : List Op) (pos : Nat) :
+    ((spansOf (done ++ op :: rest) pos).map (·.2.2))[done.length]?
+      = some (pos + (serializeOps done).length + op.raw.length) := by
+  induction done generalizing pos with
+  | nil => simp [spansOf, serializeOps]
+  | cons d ds ih =>
+    simp only [List.cons_append, spansOf, List.map_cons, List.length_cons, List.getElem?_cons_succ]
+    rw [ih]
+    simp only [serializeOps, List.flatMap_cons, List.length_append]
+    congr 1; omega
+
+/-- the stops `verify_script` hands to `_run_ops`, as `sim_loop` needs them -/
+def StopsOk (cx : Btclib.Ctx) (script : Bytes) : Prop :=
+  (parse script).1.any (fun o => o.code == 0xab) = true →
+    cx.opCodeStops = (spansOf (parse script).1 0).map (·.2.2)
+
 /-- one instruction: `k` passes of btclib's loop against Core's checks + switch (the size check of `stepFinish` is
     btclib's check at the top of the NEXT pass) -/
 def SimOp (cx : Btclib.Ctx) (script : Bytes) (st : St) (cst : Core.State) (op : Op) (rest : Bytes) : Prop :=
   match (Core.stepChecks (coreCx cx script) cst op).bind
       (fun s1 => Core.stepExec (coreCx cx script) s1 op (cst.vfExec.all id)) with
   | .error _ => ∀ f, loop cx f st = .refused
-  | .ok s2 => ∃ k st', 1 ≤ k ∧ k ≤ 3 ∧ R st' s2 ∧ st'.s = rest ∧ ∀ f, loop cx (f + k) st = loop cx f st'
+  | .ok s2 => ∃ k st', 1 ≤ k ∧ k ≤ 3 ∧ R st' s2 ∧ st'.s = rest ∧ st'.scriptIndex = st.scriptIndex + 1 ∧
+      ∀ f, loop cx (f + k) st = loop cx f st'
 
 theorem R_finish (st : St) (s2 s' : Core.State) (h : R st s2) (hf : Core.stepFinish s2 = .ok s') : R st s' := by
   obtain ⟨_, hm, hv⟩ := Core.stepFinish_ok s2 s' hf
-  obtain ⟨a, b, c, d⟩ := h
-  exact ⟨by rw [hm]; exact a, by rw [hm]; exact b, by rw [hv]; exact c, by rw [hm]; exact d⟩
+  obtain ⟨a, b, c, d, e⟩ := h
+  exact ⟨by rw [hm]; exact a, by rw [hm]; exact b, by rw [hv]; exact c, by rw [hm]; exact d, by rw [hm]; exact e⟩
 
-/-- the induction over the instructions, given the one-instruction simulation for every instruction of the script -/
+/-- the induction over the instructions, given the one-instruction simulation for every instruction of the script;
+    the invariant carries where the two cursors are (`script_index + 1 = opcode_pos`, `pc` = the bytes of the
+    instructions done) so that an instruction is simulated knowing its `op_code_stops` entry -/
 theorem sim_loop (cx : Btclib.Ctx) (script : Bytes)
     (hop : ∀ (st : St) (cst : Core.State) (op : Op) (rest : Bytes), R st cst →
       st.stack.length + st.alt.length ≤ 1000 → getOp st.s = some (op, rest) → op ∈ (parse script).1 →
+      -1 ≤ st.scriptIndex →
+      ((spansOf (parse script).1 0).map (·.2.2))[(st.scriptIndex + 1).toNat]? = some (cst.pos + op.raw.length) →
       SimOp cx script st cst op rest) :
-    ∀ (fuelP : Nat) (s : Bytes) (st : St) (cst : Core.State) (fuel : Nat),
+    ∀ (fuelP : Nat) (s : Bytes) (st : St) (cst : Core.State) (fuel : Nat) (done : List Op),
       st.s = s → R st cst → st.stack.length + st.alt.length ≤ 1000 → s.length ≤ fuelP →
-      (∀ op ∈ (parseOps fuelP s).1, op ∈ (parse script).1) →
+      (parse script).1 = done ++ (parseOps fuelP s).1 → st.scriptIndex + 1 = (done.length : Int) →
+      cst.pos = (serializeOps done).length →
       fuel ≥ 3 * (parseOps fuelP s).1.length + 1 →
       loop cx fuel st = finish (Core.run (coreCx cx script) (parseOps fuelP s).1 cst) (parseOps fuelP s).2 := by
   intro fuelP
   induction fuelP with
   | zero =>
-    intro s st cst fuel hs hR hsz hlen _ hfuel
+    intro s st cst fuel done hs hR hsz hlen _ _ _ hfuel
     have : s = [] := List.length_eq_zero_iff.mp (by omega)
     subst this
     simp only [parseOps, Core.run, finish, List.isEmpty_nil, Bool.not_true, Bool.false_eq_true, if_false]
@@ -148,11 +235,11 @@ theorem sim_loop (cx : Btclib.Ctx) (script : Bytes)
     | nil => simp [h1]
     | cons b l => simp
   | succ fp ih =>
-    intro s st cst fuel hs hR hsz hlen hmem hfuel
-    unfold parseOps at hmem hfuel ⊢
+    intro s st cst fuel done hs hR hsz hlen hdone hidx hpos hfuel
+    unfold parseOps at hdone hfuel ⊢
     cases hg : getOp s with
     | none =>
-      simp only [hg] at hmem hfuel ⊢
+      simp only [hg] at hdone hfuel ⊢
       simp only [Core.run, finish]
       obtain ⟨f, rfl⟩ : ∃ f, fuel = f + 1 := ⟨fuel - 1, by simp at hfuel; omega⟩
       rcases getOp_none s hg with rfl | ⟨c, r, rfl, hc1, hc2⟩
@@ -172,9 +259,13 @@ theorem sim_loop (cx : Btclib.Ctx) (script : Bytes)
         simp [iter, hs, Gen.Script.N_MAX_STACK_SIZE, hsz', hc1, hc2, hrp]
     | some p =>
       obtain ⟨op, rest⟩ := p
-      simp only [hg] at hmem hfuel ⊢
-      have hin : op ∈ (parse script).1 := hmem op (by simp)
-      have hso := hop st cst op rest hR hsz (by rw [hs]; exact hg) hin
+      simp only [hg] at hdone hfuel ⊢
+      have hin : op ∈ (parse script).1 := by rw [hdone]; simp
+      have hstop : ((spansOf (parse script).1 0).map (·.2.2))[(st.scriptIndex + 1).toNat]?
+          = some (cst.pos + op.raw.length) := by
+        have e : (st.scriptIndex + 1).toNat = done.length := by omega
+        rw [e, hdone, stops_get, hpos]; simp
+      have hso := hop st cst op rest hR hsz (by rw [hs]; exact hg) hin (by omega) hstop
       simp only [Core.run, Core.step]
       unfold SimOp at hso
       cases hpre : (Core.stepChecks (coreCx cx script) cst op).bind
@@ -193,7 +284,13 @@ theorem sim_loop (cx : Btclib.Ctx) (script : Bytes)
         exact hso fuel
       | ok s2 =>
         rw [hpre] at hso
-        obtain ⟨k, st', hk1, hk3, hR', hs', hloop⟩ := hso
+        obtain ⟨k, st', hk1, hk3, hR', hs', hidx', hloop⟩ := hso
+        have hs2pos : s2.pos = cst.pos + op.raw.length := by
+          cases h1 : Core.stepChecks (coreCx cx script) cst op with
+          | error e1 => simp [h1, Except.bind] at hpre
+          | ok s1 =>
+            simp only [h1, Except.bind] at hpre
+            rw [(stepExec_pos _ s1 s2 op _ hpre).1, (stepChecks_pos _ cst s1 op h1).1]
         have hstep : (Core.stepChecks (coreCx cx script) cst op).bind
             (fun s1 => (Core.stepExec (coreCx cx script) s1 op (cst.vfExec.all id)).bind Core.stepFinish)
               = Core.stepFinish s2 := by
@@ -218,10 +315,13 @@ theorem sim_loop (cx : Btclib.Ctx) (script : Bytes)
         | ok s' =>
           simp only [Except.bind]
           have hb := (Core.stepFinish_ok s2 s' hfin).1
-          apply ih rest st' s' f hs' (R_finish st' s2 s' hR' hfin)
+          apply ih rest st' s' f (done ++ [op]) hs' (R_finish st' s2 s' hR' hfin)
           · rw [hR'.1, hR'.2.1]; simpa [Core.MAX_STACK_SIZE] using hb
           · omega
-          · intro o ho; exact hmem o (by simp [ho])
+          · rw [hdone]; simp
+          · rw [hidx']; simp only [List.length_append, List.length_cons, List.length_nil]; omega
+          · rw [(stepFinish_pos s2 s' hfin).1, hs2pos, hpos]
+            simp [serializeOps, List.flatMap_append]
           · simp only [List.length_cons] at hfuel; omega
 /-! ### non-push op codes: the frame around the switch -/
 
@@ -237,16 +337,16 @@ theorem getOp_nonpush (c : UInt8) (r : Bytes) (op : Op) (rest : Bytes) (h : getO
   cases h; exact ⟨rfl, rfl⟩
 
 /-- a pass of the loop over a non-push byte, in normal form -/
-theorem iter_nonpush (cx : Btclib.Ctx) (stack alt : List Bytes) (cond : List Bool) (cnt idx : Int) (c : UInt8) (r : Bytes)
+theorem iter_nonpush (cx : Btclib.Ctx) (stack alt : List Bytes) (cond : List Bool) (cnt idx : Int) (cso : Nat) (c : UInt8) (r : Bytes)
     (hsz : stack.length + alt.length ≤ 1000) (hc : ¬ (0 < c.toNat ∧ c.toNat ≤ 78)) :
-    iter cx { stack := stack, alt := alt, cond := cond, opCodeNum := cnt, scriptIndex := idx, s := c :: r } =
+    iter cx { stack := stack, alt := alt, cond := cond, opCodeNum := cnt, scriptIndex := idx, s := c :: r, codesepOffset := cso } =
       match (if c.toNat > 96 then (if cnt + 1 > 201 then none else some (cnt + 1)) else some cnt) with
       | none => none
       | some cnt' =>
         if Gen.Script.DISABLED_OP_CODES.contains c.toNat then none
         else if !(cond.all id) && !(decide (99 ≤ c.toNat) && decide (c.toNat < 105)) then
-          some (.more { stack := stack, alt := alt, cond := cond, opCodeNum := cnt', scriptIndex := idx + 1, s := r })
-        else dispatch cx c.toNat { stack := stack, alt := alt, cond := cond, opCodeNum := cnt', scriptIndex := idx + 1, s := r } := by
+          some (.more { stack := stack, alt := alt, cond := cond, opCodeNum := cnt', scriptIndex := idx + 1, s := r, codesepOffset := cso })
+        else dispatch cx c.toNat { stack := stack, alt := alt, cond := cond, opCodeNum := cnt', scriptIndex := idx + 1, s := r, codesepOffset := cso } := by
   have hsz' : ¬ (stack.length + alt.length > 1000) := by omega
   simp only [iter, Gen.Script.N_MAX_STACK_SIZE, hsz', if_false, hc, count_spec,
     Gen.Script.EVALUATED_WHEN_UNEXECUTED_LO, Gen.Script.EVALUATED_WHEN_UNEXECUTED_HI]
@@ -257,18 +357,19 @@ theorem iter_nonpush (cx : Btclib.Ctx) (stack alt : List Bytes) (cond : List Boo
 def DispOk (cx : Btclib.Ctx) (sc : Bytes) (t : Nat) (st1 : St) (s1 : Core.State) (op : Op) (fExec : Bool) : Prop :=
   match Core.stepExec (coreCx cx sc) s1 op fExec with
   | .error _ => dispatch cx t st1 = none
-  | .ok s2 => ∃ st', dispatch cx t st1 = some (.more st') ∧ R st' s2 ∧ st'.s = st1.s
+  | .ok s2 => ∃ st', dispatch cx t st1 = some (.more st') ∧ R st' s2 ∧ st'.s = st1.s ∧ st'.scriptIndex = st1.scriptIndex
 
 /-- after the checks: either both skip the op code (untaken branch, outside OP_IF..OP_ENDIF) or both dispatch -/
 theorem frame_tail (cx : Btclib.Ctx) (sc : Bytes) (st0 st1 : St) (s1 : Core.State) (t : Nat) (op : Op) (fExec : Bool)
     (hop : op.code = t) (ht : ¬ (0 < t ∧ t ≤ 78))
     (hit : iter cx st0 = if (!st1.cond.all id && !(decide (99 ≤ t) && decide (t < 105))) = true then some (.more st1)
                           else dispatch cx t st1)
-    (hR1 : R st1 s1) (hf : st1.cond.all id = fExec)
+    (hR1 : R st1 s1) (hf : st1.cond.all id = fExec) (hidx : st1.scriptIndex = st0.scriptIndex + 1)
     (hdisp : (fExec = true ∨ (99 ≤ t ∧ t < 105)) → DispOk cx sc t st1 s1 op fExec) :
     match Core.stepExec (coreCx cx sc) s1 op fExec with
     | .error _ => ∀ f, loop cx f st0 = .refused
-    | .ok s2 => ∃ k st', 1 ≤ k ∧ k ≤ 3 ∧ R st' s2 ∧ st'.s = st1.s ∧ ∀ f, loop cx (f + k) st0 = loop cx f st' := by
+    | .ok s2 => ∃ k st', 1 ≤ k ∧ k ≤ 3 ∧ R st' s2 ∧ st'.s = st1.s ∧ st'.scriptIndex = st0.scriptIndex + 1 ∧
+        ∀ f, loop cx (f + k) st0 = loop cx f st' := by
   by_cases hskip : fExec = false ∧ ¬ (99 ≤ t ∧ t < 105)
   · obtain ⟨hfe, hr⟩ := hskip
     have hrb : (decide (99 ≤ t) && decide (t < 105)) = false := by
@@ -280,7 +381,7 @@ theorem frame_tail (cx : Btclib.Ctx) (sc : Bytes) (st0 st1 : St) (s1 : Core.Stat
         simp only [Bool.and_eq_false_imp, decide_eq_true_eq, decide_eq_false_iff_not]; omega
       simp [hfe, hr2]
     rw [hse]
-    refine ⟨1, st1, by omega, by omega, hR1, rfl, ?_⟩
+    refine ⟨1, st1, by omega, by omega, hR1, rfl, hidx, ?_⟩
     intro f
     apply loop_iter_more
     rw [hit, hf, hfe, hrb]; rfl
@@ -307,8 +408,8 @@ theorem frame_tail (cx : Btclib.Ctx) (sc : Bytes) (st0 st1 : St) (s1 : Core.Stat
       exact loop_iter_none cx st0 (by rw [hit]; exact hd)
     | ok s2 =>
       rw [hse] at hd
-      obtain ⟨st', hd1, hd2, hd3⟩ := hd
-      exact ⟨1, st', by omega, by omega, hd2, hd3, fun f => loop_iter_more cx st0 st' (by rw [hit]; exact hd1) f⟩
+      obtain ⟨st', hd1, hd2, hd3, hd4⟩ := hd
+      exact ⟨1, st', by omega, by omega, hd2, hd3, by rw [hd4, hidx], fun f => loop_iter_more cx st0 st' (by rw [hit]; exact hd1) f⟩
 
 /-- frame: everything `_run_ops` and `EvalScript` do around the switch for a non-push op code (count, disabled set,
     skipping in an untaken branch) agrees; what is left is the dispatch -/
@@ -319,15 +420,16 @@ theorem sim_nonpush (cx : Btclib.Ctx) (sc : Bytes) (st : St) (cst : Core.State) 
             Core.has (coreCx cx sc).flags Core.FLAG_CONST_SCRIPTCODE) = false)
     (hdisp : ∀ (st1 : St) (s1 : Core.State), R st1 s1 → st1.s = r → st1.stack = st.stack → st1.alt = st.alt →
         st1.cond = st.cond → s1.vfExec = cst.vfExec → s1.m.stack = cst.m.stack → s1.m.alt = cst.m.alt →
+        st1.scriptIndex = st.scriptIndex + 1 → s1.pos = cst.pos + 1 →
         (cst.vfExec.all id = true ∨ (99 ≤ c.toNat ∧ c.toNat < 105)) →
         DispOk cx sc c.toNat st1 s1 ⟨c.toNat, [], [c]⟩ (cst.vfExec.all id)) :
     SimOp cx sc st cst ⟨c.toNat, [], [c]⟩ r := by
-  obtain ⟨stack, alt, cond, cnt, idx, s⟩ := st
-  obtain ⟨h1, h2, h3, h4⟩ := hR
+  obtain ⟨stack, alt, cond, cnt, idx, s, cso⟩ := st
+  obtain ⟨h1, h2, h3, h4, h5⟩ := hR
   simp only at h1 h2 h3 h4 hs hsz hdisp
   subst hs
   have hall : cond.all id = cst.vfExec.all id := by rw [h3, all_snoc_true]
-  have hit := iter_nonpush cx stack alt cond cnt idx c r hsz hc
+  have hit := iter_nonpush cx stack alt cond cnt idx cso c r hsz hc
   unfold SimOp
   simp only [Core.stepChecks, sv_counted, Bool.true_and, List.length_nil, Core.MAX_SCRIPT_ELEMENT_SIZE,
     show ¬ (0 > 520) by omega, if_false, List.length_cons]
@@ -357,12 +459,12 @@ theorem sim_nonpush (cx : Btclib.Ctx) (sc : Bytes) (st : St) (cst : Core.State) 
         simp only [hd2, Bool.false_eq_true, if_false] at hit
         have hc4 : cnt + 1 = ((cst.m.opCount + 1 : Nat) : Int) := by omega
         refine frame_tail cx sc
-          { stack := stack, alt := alt, cond := cond, opCodeNum := cnt, scriptIndex := idx, s := c :: r }
-          { stack := stack, alt := alt, cond := cond, opCodeNum := cnt + 1, scriptIndex := idx + 1, s := r }
-          _ c.toNat ⟨c.toNat, [], [c]⟩ (cst.vfExec.all id) rfl hc hit ?_ hall ?_
-        · exact ⟨h1, h2, h3, hc4⟩
+          { stack := stack, alt := alt, cond := cond, opCodeNum := cnt, scriptIndex := idx, s := c :: r, codesepOffset := cso }
+          { stack := stack, alt := alt, cond := cond, opCodeNum := cnt + 1, scriptIndex := idx + 1, s := r, codesepOffset := cso }
+          _ c.toNat ⟨c.toNat, [], [c]⟩ (cst.vfExec.all id) rfl hc hit ?_ hall rfl ?_
+        · exact ⟨h1, h2, h3, hc4, h5⟩
         · intro hh
-          exact hdisp _ _ ⟨h1, h2, h3, hc4⟩ rfl rfl rfl rfl rfl rfl rfl hh
+          exact hdisp _ _ ⟨h1, h2, h3, hc4, h5⟩ rfl rfl rfl rfl rfl rfl rfl rfl rfl hh
   · have hcnt2 : ¬ (c.toNat > 0x60) := hcnt
     simp only [hcnt2, decide_false, Bool.false_and, Bool.false_eq_true, if_false]
     simp only [hcnt, if_false] at hit
@@ -377,12 +479,12 @@ theorem sim_nonpush (cx : Btclib.Ctx) (sc : Bytes) (st : St) (cst : Core.State) 
       simp only [hdis, Bool.false_eq_true, if_false, Except.bind]
       simp only [hd2, Bool.false_eq_true, if_false] at hit
       refine frame_tail cx sc
-        { stack := stack, alt := alt, cond := cond, opCodeNum := cnt, scriptIndex := idx, s := c :: r }
-        { stack := stack, alt := alt, cond := cond, opCodeNum := cnt, scriptIndex := idx + 1, s := r }
-        _ c.toNat ⟨c.toNat, [], [c]⟩ (cst.vfExec.all id) rfl hc hit ?_ hall ?_
-      · exact ⟨h1, h2, h3, h4⟩
+        { stack := stack, alt := alt, cond := cond, opCodeNum := cnt, scriptIndex := idx, s := c :: r, codesepOffset := cso }
+        { stack := stack, alt := alt, cond := cond, opCodeNum := cnt, scriptIndex := idx + 1, s := r, codesepOffset := cso }
+        _ c.toNat ⟨c.toNat, [], [c]⟩ (cst.vfExec.all id) rfl hc hit ?_ hall rfl ?_
+      · exact ⟨h1, h2, h3, h4, h5⟩
       · intro hh
-        exact hdisp _ _ ⟨h1, h2, h3, h4⟩ rfl rfl rfl rfl rfl rfl rfl hh
+        exact hdisp _ _ ⟨h1, h2, h3, h4, h5⟩ rfl rfl rfl rfl rfl rfl rfl rfl rfl hh
 
 /-! ### the switch, family by family -/
 
@@ -498,7 +600,7 @@ theorem disp_operation (cx : Btclib.Ctx) (sc : Bytes) (t : Nat) (raw : Bytes) (s
     (href : ∀ stack alt, btRes (operation cx t stack alt) = coreRes (Core.execStackOp (coreCx cx sc) stack alt t))
     (hw : WellOp cx sc t) (hR : R st1 s1) :
     DispOk cx sc t st1 s1 ⟨t, [], raw⟩ true := by
-  obtain ⟨h1, h2, h3, h4⟩ := hR
+  obtain ⟨h1, h2, h3, h4, h5⟩ := hR
   have hnp' : (decide (t ≤ 0x4e)) = false := by simpa using hnp
   unfold DispOk Core.stepExec
   simp only [Bool.true_and, hnp', Bool.false_eq_true, if_false, hnr, if_true]
@@ -530,14 +632,14 @@ theorem disp_operation (cx : Btclib.Ctx) (sc : Bytes) (t : Nat) (raw : Bytes) (s
           obtain ⟨s', a'⟩ := p
           cases hr
           simp only [Except.map]
-          exact ⟨_, rfl, ⟨rfl, rfl, h3, h4⟩, rfl⟩
+          exact ⟨_, rfl, ⟨rfl, rfl, h3, h4, h5⟩, rfl, rfl⟩
 
 
 /-- OP_0 and OP_1..OP_16 -/
 theorem disp_digit (cx : Btclib.Ctx) (sc : Bytes) (t : Nat) (raw : Bytes) (st1 : St) (s1 : Core.State)
     (ht : t = 0 ∨ (0x51 ≤ t ∧ t ≤ 0x60)) (hR : R st1 s1) :
     DispOk cx sc t st1 s1 ⟨t, [], raw⟩ true := by
-  obtain ⟨h1, h2, h3, h4⟩ := hR
+  obtain ⟨h1, h2, h3, h4, h5⟩ := hR
   have hcases : t = 0 ∨ t = 0x51 ∨ t = 0x52 ∨ t = 0x53 ∨ t = 0x54 ∨ t = 0x55 ∨ t = 0x56 ∨ t = 0x57 ∨ t = 0x58 ∨ t = 0x59
       ∨ t = 0x5a ∨ t = 0x5b ∨ t = 0x5c ∨ t = 0x5d ∨ t = 0x5e ∨ t = 0x5f ∨ t = 0x60 := by omega
   unfold DispOk
@@ -548,10 +650,10 @@ theorem disp_digit (cx : Btclib.Ctx) (sc : Bytes) (t : Nat) (raw : Bytes) (st1 :
       unfold Core.stepExec
       simp [Core.checkMinimalPush]
     rw [this]
-    exact ⟨{ st1 with stack := enc ((0 : Nat) : Int) :: st1.stack }, rfl, ⟨by simp only [h1]; rfl, h2, h3, h4⟩, rfl⟩
+    exact ⟨{ st1 with stack := enc ((0 : Nat) : Int) :: st1.stack }, rfl, ⟨by simp only [h1]; rfl, h2, h3, h4, h5⟩, rfl, rfl⟩
   all_goals
     (exact ⟨{ st1 with stack := _ :: st1.stack }, rfl,
-      ⟨by simp only [h1]; exact congrArg (· :: s1.m.stack) (enc_eq _), h2, h3, h4⟩, rfl⟩)
+      ⟨by simp only [h1]; exact congrArg (· :: s1.m.stack) (enc_eq _), h2, h3, h4, h5⟩, rfl, rfl⟩)
 
 
 def nopNs : List Nat := [0xb0, 0xb3, 0xb4, 0xb5, 0xb6, 0xb7, 0xb8, 0xb9]
@@ -578,18 +680,18 @@ theorem disp_nopN (cx : Btclib.Ctx) (sc : Bytes) (t : Nat) (raw : Bytes) (st1 : 
   · simp [hf, Except.map]
   · have hf' : Core.has cx.flags Core.FLAG_DISCOURAGE_UPGRADABLE_NOPS = false := by simpa using hf
     simp only [hf', Bool.false_eq_true, if_false, Except.map]
-    exact ⟨st1, rfl, hR, rfl⟩
+    exact ⟨st1, rfl, hR, rfl, rfl⟩
 
 /-- OP_NOP -/
 theorem disp_nop (cx : Btclib.Ctx) (sc : Bytes) (raw : Bytes) (st1 : St) (s1 : Core.State) (hR : R st1 s1) :
     DispOk cx sc 0x61 st1 s1 ⟨0x61, [], raw⟩ true :=
-  ⟨st1, rfl, hR, rfl⟩
+  ⟨st1, rfl, hR, rfl, rfl⟩
 
 
 /-- OP_CHECKLOCKTIMEVERIFY / OP_CHECKSEQUENCEVERIFY -/
 theorem disp_locktime (cx : Btclib.Ctx) (sc : Bytes) (raw : Bytes) (st1 : St) (s1 : Core.State) (hR : R st1 s1) :
     DispOk cx sc 0xb1 st1 s1 ⟨0xb1, [], raw⟩ true ∧ DispOk cx sc 0xb2 st1 s1 ⟨0xb2, [], raw⟩ true := by
-  obtain ⟨h1, h2, h3, h4⟩ := hR
+  obtain ⟨h1, h2, h3, h4, h5⟩ := hR
   constructor
   · have hc := cltv_core cx sc s1.m.stack
     have e1 : Core.stepExec (coreCx cx sc) s1 ⟨0xb1, [], raw⟩ true
@@ -614,7 +716,7 @@ theorem disp_locktime (cx : Btclib.Ctx) (sc : Bytes) (raw : Bytes) (st1 : St) (s
         rw [hb] at hc
         simp only [okOpt, Option.map_some, Option.some.injEq] at hc
         subst hc
-        exact ⟨st1, rfl, ⟨h1, h2, h3, h4⟩, rfl⟩
+        exact ⟨st1, rfl, ⟨h1, h2, h3, h4, h5⟩, rfl, rfl⟩
   · have hc := csv_core cx sc s1.m.stack
     have e1 : Core.stepExec (coreCx cx sc) s1 ⟨0xb2, [], raw⟩ true
         = ((Core.execCsv (coreCx cx sc) s1.m.stack).map fun s => (s, s1.m.alt)).map
@@ -638,7 +740,7 @@ theorem disp_locktime (cx : Btclib.Ctx) (sc : Bytes) (raw : Bytes) (st1 : St) (s
         rw [hb] at hc
         simp only [okOpt, Option.map_some, Option.some.injEq] at hc
         subst hc
-        exact ⟨st1, rfl, ⟨h1, h2, h3, h4⟩, rfl⟩
+        exact ⟨st1, rfl, ⟨h1, h2, h3, h4, h5⟩, rfl, rfl⟩
 
 
 theorem snoc_true_cons (l : List Bool) : ∃ c2 r, l ++ [true] = c2 :: r := by
@@ -658,7 +760,7 @@ theorem disp_conditional (cx : Btclib.Ctx) (sc : Bytes) (t : Nat) (raw : Bytes) 
     (ht : t = 0x63 ∨ t = 0x64 ∨ t = 0x67 ∨ t = 0x68 ∨ t = 0x65 ∨ t = 0x66) (hR : R st1 s1)
     (hfe : s1.vfExec.all id = fExec) :
     DispOk cx sc t st1 s1 ⟨t, [], raw⟩ fExec := by
-  obtain ⟨h1, h2, h3, h4⟩ := hR
+  obtain ⟨h1, h2, h3, h4, h5⟩ := hR
   have hall : st1.cond.all id = fExec := by rw [h3, all_snoc_true]; exact hfe
   have hsv : ((coreCx cx sc).sigversion == Core.SigVersion.TAPSCRIPT) = false := by
     unfold coreCx; cases cx.segwit <;> rfl
@@ -683,7 +785,7 @@ theorem disp_conditional (cx : Btclib.Ctx) (sc : Bytes) (t : Nat) (raw : Bytes) 
       rw [hf] at hall
       have e : Core.execConditional (coreCx cx sc) s1 0x63 false = .ok { s1 with vfExec := false :: s1.vfExec } := rfl
       rw [e]
-      refine ⟨{ st1 with cond := false :: st1.cond }, ?_, ⟨h1, h2, by simp [h3], h4⟩, rfl⟩
+      refine ⟨{ st1 with cond := false :: st1.cond }, ?_, ⟨h1, h2, by simp [h3], h4, h5⟩, rfl, rfl⟩
       simp [dispatch, kind, hall]
     | true =>
       rw [hf] at hall
@@ -715,7 +817,7 @@ theorem disp_conditional (cx : Btclib.Ctx) (sc : Bytes) (t : Nat) (raw : Bytes) 
             simp
           rw [e]
           refine ⟨{ st1 with stack := r, cond := toBool top :: st1.cond }, ?_,
-            ⟨rfl, h2, by simp [h3, toBool_eq_castToBool], h4⟩, rfl⟩
+            ⟨rfl, h2, by simp [h3, toBool_eq_castToBool], h4, h5⟩, rfl, rfl⟩
           simp [dispatch, kind, hall, h1, hst]
           simpa using hm'
   · -- OP_NOTIF
@@ -724,7 +826,7 @@ theorem disp_conditional (cx : Btclib.Ctx) (sc : Bytes) (t : Nat) (raw : Bytes) 
       rw [hf] at hall
       have e : Core.execConditional (coreCx cx sc) s1 0x64 false = .ok { s1 with vfExec := false :: s1.vfExec } := rfl
       rw [e]
-      refine ⟨{ st1 with cond := false :: st1.cond }, ?_, ⟨h1, h2, by simp [h3], h4⟩, rfl⟩
+      refine ⟨{ st1 with cond := false :: st1.cond }, ?_, ⟨h1, h2, by simp [h3], h4, h5⟩, rfl, rfl⟩
       simp [dispatch, kind, hall]
     | true =>
       rw [hf] at hall
@@ -755,7 +857,7 @@ theorem disp_conditional (cx : Btclib.Ctx) (sc : Bytes) (t : Nat) (raw : Bytes) 
               Bool.false_eq_true, if_false, hv0, hfl, hm2]
           rw [e]
           refine ⟨{ st1 with stack := r, cond := (!toBool top) :: st1.cond }, ?_,
-            ⟨rfl, h2, by simp [h3, toBool_eq_castToBool], h4⟩, rfl⟩
+            ⟨rfl, h2, by simp [h3, toBool_eq_castToBool], h4, h5⟩, rfl, rfl⟩
           simp [dispatch, kind, hall, h1, hst]
           simpa using hm'
   · -- OP_ELSE
@@ -771,7 +873,7 @@ theorem disp_conditional (cx : Btclib.Ctx) (sc : Bytes) (t : Nat) (raw : Bytes) 
       simp only
       obtain ⟨c2, r2, hc⟩ := snoc_true_cons l
       have : st1.cond = b :: c2 :: r2 := by rw [h3, hv, List.cons_append, hc]
-      refine ⟨{ st1 with cond := (!b) :: c2 :: r2 }, by simp [dispatch, kind, this], ⟨h1, h2, ?_, h4⟩, rfl⟩
+      refine ⟨{ st1 with cond := (!b) :: c2 :: r2 }, by simp [dispatch, kind, this], ⟨h1, h2, ?_, h4, h5⟩, rfl, rfl⟩
       simp only [List.cons_append, hc]
   · -- OP_ENDIF
     have e : Core.execConditional (coreCx cx sc) s1 0x68 fExec
@@ -786,7 +888,7 @@ theorem disp_conditional (cx : Btclib.Ctx) (sc : Bytes) (t : Nat) (raw : Bytes) 
       simp only
       obtain ⟨c2, r2, hc⟩ := snoc_true_cons l
       have : st1.cond = b :: c2 :: r2 := by rw [h3, hv, List.cons_append, hc]
-      exact ⟨{ st1 with cond := c2 :: r2 }, by simp [dispatch, kind, this], ⟨h1, h2, hc.symm, h4⟩, rfl⟩
+      exact ⟨{ st1 with cond := c2 :: r2 }, by simp [dispatch, kind, this], ⟨h1, h2, hc.symm, h4, h5⟩, rfl, rfl⟩
   · -- OP_VERIF
     have e : Core.execConditional (coreCx cx sc) s1 0x65 fExec = .error .BAD_OPCODE := rfl
     rw [e]; rfl
@@ -850,20 +952,20 @@ theorem sim_push (cx : Btclib.Ctx) (sc : Bytes) (st : St) (cst : Core.State) (c 
     (hR : R st cst) (hsz : st.stack.length + st.alt.length ≤ 1000) (hs : st.s = c :: r)
     (hc : 0 < c.toNat ∧ c.toNat ≤ 78) (hg : getOp (c :: r) = some (op, rest)) :
     SimOp cx sc st cst op rest := by
-  obtain ⟨stack, alt, cond, cnt, idx, s⟩ := st
-  obtain ⟨h1, h2, h3, h4⟩ := hR
+  obtain ⟨stack, alt, cond, cnt, idx, s, cso⟩ := st
+  obtain ⟨h1, h2, h3, h4, h5⟩ := hR
   simp only at h1 h2 h3 h4 hs hsz
   subst hs
   obtain ⟨hcode, hrp⟩ := readPush_some c r op rest hg hc
   have hall : cond.all id = cst.vfExec.all id := by rw [h3, all_snoc_true]
   have hsz' : ¬ (stack.length + alt.length > 1000) := by omega
-  have hit : iter cx { stack := stack, alt := alt, cond := cond, opCodeNum := cnt, scriptIndex := idx, s := c :: r } =
+  have hit : iter cx { stack := stack, alt := alt, cond := cond, opCodeNum := cnt, scriptIndex := idx, s := c :: r, codesepOffset := cso } =
       match readPushData c.toNat r with
       | none => none
       | some (data, rest') =>
-        if !(cond.all id) then some (.more { stack := stack, alt := alt, cond := cond, opCodeNum := cnt, scriptIndex := idx + 1, s := rest' })
+        if !(cond.all id) then some (.more { stack := stack, alt := alt, cond := cond, opCodeNum := cnt, scriptIndex := idx + 1, s := rest', codesepOffset := cso })
         else if minimaldata cx && !minimalPush data c.toNat then none
-        else some (.more { stack := data :: stack, alt := alt, cond := cond, opCodeNum := cnt, scriptIndex := idx + 1, s := rest' }) := by
+        else some (.more { stack := data :: stack, alt := alt, cond := cond, opCodeNum := cnt, scriptIndex := idx + 1, s := rest', codesepOffset := cso }) := by
     simp only [iter, Gen.Script.N_MAX_STACK_SIZE, hsz', if_false, hc, and_self, if_true]
     cases readPushData c.toNat r <;> rfl
   unfold SimOp
@@ -893,8 +995,8 @@ theorem sim_push (cx : Btclib.Ctx) (sc : Bytes) (st : St) (cst : Core.State) (c 
     | false =>
       rw [hf] at hall
       simp only [Core.stepExec, Bool.false_and, Bool.false_eq_true, if_false, hnr]
-      refine ⟨1, { stack := stack, alt := alt, cond := cond, opCodeNum := cnt, scriptIndex := idx + 1, s := rest },
-        by omega, by omega, ⟨h1, h2, h3, h4⟩, rfl, fun f => loop_iter_more cx _ _ ?_ f⟩
+      refine ⟨1, { stack := stack, alt := alt, cond := cond, opCodeNum := cnt, scriptIndex := idx + 1, s := rest, codesepOffset := cso },
+        by omega, by omega, ⟨h1, h2, h3, h4, h5⟩, rfl, rfl, fun f => loop_iter_more cx _ _ ?_ f⟩
       rw [hit, hall]; rfl
     | true =>
       rw [hf] at hall
@@ -905,8 +1007,8 @@ theorem sim_push (cx : Btclib.Ctx) (sc : Bytes) (st : St) (cst : Core.State) (c 
         rw [hit, hall]; simp [hm]
       · have hm' : (minimaldata cx && !minimalPush op.data c.toNat) = false := by simpa using hm
         simp only [hm', Bool.false_eq_true, if_false]
-        refine ⟨1, { stack := op.data :: stack, alt := alt, cond := cond, opCodeNum := cnt, scriptIndex := idx + 1, s := rest },
-          by omega, by omega, ⟨by simp only [h1], h2, h3, h4⟩, rfl, fun f => loop_iter_more cx _ _ ?_ f⟩
+        refine ⟨1, { stack := op.data :: stack, alt := alt, cond := cond, opCodeNum := cnt, scriptIndex := idx + 1, s := rest, codesepOffset := cso },
+          by omega, by omega, ⟨by simp only [h1], h2, h3, h4, h5⟩, rfl, rfl, fun f => loop_iter_more cx _ _ ?_ f⟩
         rw [hit, hall]; simp [hm']
 
 
@@ -990,26 +1092,26 @@ theorem iter3_more (cx : Btclib.Ctx) (st st' : St) (h : iter3 cx st = some (.mor
 
 /-- the expansion of OP_EQUALVERIFY / OP_NUMEQUALVERIFY: three passes, wound back and counted up again -/
 theorem expansion_windback (cx : Btclib.Ctx) (T tX : Nat) (hT : (T = 0x88 ∧ tX = 0x87) ∨ (T = 0x9d ∧ tX = 0x9c))
-    (stack alt : List Bytes) (cond : List Bool) (cnt idx : Int) (rest : Bytes)
+    (stack alt : List Bytes) (cond : List Bool) (cnt idx : Int) (cso : Nat) (rest : Bytes)
     (hexec : cond.all id = true) (hsize : stack.length + alt.length ≤ 1000)
     (hshrink : ∀ s a, operation cx tX stack alt = some (.done s a) → s.length + a.length ≤ stack.length + alt.length)
     (hnoexp : isExpand (operation cx tX stack alt) = false) :
-    iter3 cx { stack := stack, alt := alt, cond := cond, opCodeNum := cnt, scriptIndex := idx, s := UInt8.ofNat T :: rest } =
+    iter3 cx { stack := stack, alt := alt, cond := cond, opCodeNum := cnt, scriptIndex := idx, s := UInt8.ofNat T :: rest, codesepOffset := cso } =
       (if cnt + 1 > 201 then none
        else match (btRes (operation cx tX stack alt)).bind fun p => btRes (operation cx 0x69 p.1 p.2) with
-         | some (s, a) => some (.more { stack := s, alt := a, cond := cond, opCodeNum := cnt + 1, scriptIndex := idx + 1, s := rest })
+         | some (s, a) => some (.more { stack := s, alt := a, cond := cond, opCodeNum := cnt + 1, scriptIndex := idx + 1, s := rest, codesepOffset := cso })
          | none => none) := by
   have hTm : T = 0x88 ∨ T = 0x87 ∨ T = 0x69 ∨ T = 0x9d ∨ T = 0x9c := by rcases hT with ⟨h, _⟩ | ⟨h, _⟩ <;> simp [h]
   have hXm : tX = 0x88 ∨ tX = 0x87 ∨ tX = 0x69 ∨ tX = 0x9d ∨ tX = 0x9c := by rcases hT with ⟨_, h⟩ | ⟨_, h⟩ <;> simp [h]
   have eT : operation cx T stack alt = some (.expand stack alt [tX, 0x69]) := by
     rcases hT with ⟨h1, h2⟩ | ⟨h1, h2⟩ <;> (subst h1; subst h2; rfl)
   unfold iter3
-  rw [iter_operation cx T hTm stack alt cond cnt idx rest hexec hsize]
+  rw [iter_operation cx T hTm stack alt cond cnt idx cso rest hexec hsize]
   by_cases hc : cnt + 1 > 201
   · simp [hc]
   · simp only [hc, if_false]
     simp only [eT, List.map_cons, List.map_nil, List.cons_append, List.nil_append, List.length_cons, List.length_nil]
-    rw [iter_operation cx tX hXm stack alt cond _ _ _ hexec hsize]
+    rw [iter_operation cx tX hXm stack alt cond _ _ cso _ hexec hsize]
     have hc2 : ¬ (cnt + 1 - ((0 + 1 + 1 : Nat) : Int) + 1 > 201) := by omega
     simp only [hc2, if_false]
     cases hX : operation cx tX stack alt with
@@ -1020,7 +1122,7 @@ theorem expansion_windback (cx : Btclib.Ctx) (T tX : Nat) (hT : (T = 0x88 ∧ tX
       | done s a =>
         simp only [btRes, Option.bind_some]
         have hs3 : s.length + a.length ≤ 1000 := by have := hshrink s a hX; omega
-        rw [iter_operation cx 0x69 (Or.inr (Or.inr (Or.inl rfl))) s a cond _ _ rest hexec hs3]
+        rw [iter_operation cx 0x69 (Or.inr (Or.inr (Or.inl rfl))) s a cond _ _ cso rest hexec hs3]
         have hc3 : ¬ (cnt + 1 - ((0 + 1 + 1 : Nat) : Int) + 1 + 1 > 201) := by omega
         simp only [hc3, if_false]
         cases h69 : operation cx 0x69 s a with
@@ -1069,8 +1171,8 @@ theorem sim_expansion (cx : Btclib.Ctx) (sc : Bytes) (st : St) (cst : Core.State
     (hR : R st cst) (hsz : st.stack.length + st.alt.length ≤ 1000) (hs : st.s = c :: r)
     (hT : c.toNat = 0x88 ∨ c.toNat = 0x9d) (hexec : cst.vfExec.all id = true) :
     SimOp cx sc st cst ⟨c.toNat, [], [c]⟩ r := by
-  obtain ⟨stack, alt, cond, cnt, idx, s⟩ := st
-  obtain ⟨h1, h2, h3, h4⟩ := hR
+  obtain ⟨stack, alt, cond, cnt, idx, s, cso⟩ := st
+  obtain ⟨h1, h2, h3, h4, h5⟩ := hR
   simp only at h1 h2 h3 h4 hs hsz
   subst hs
   have hall : cond.all id = true := by rw [h3, all_snoc_true]; exact hexec
@@ -1098,7 +1200,7 @@ theorem sim_expansion (cx : Btclib.Ctx) (sc : Bytes) (st : St) (cst : Core.State
     rcases hTX with ⟨_, rfl⟩ | ⟨_, rfl⟩
     · exact (well_misc cx sc 0x87 (Or.inl (by decide)) stack alt).2
     · exact (well_arith cx sc 0x9c (by decide) stack alt).2
-  have hwb := expansion_windback cx c.toNat tX hTX stack alt cond cnt idx r hall hsz hshr hnx
+  have hwb := expansion_windback cx c.toNat tX hTX stack alt cond cnt idx cso r hall hsz hshr hnx
   rw [hc] at hwb
   -- Core's side
   have hcnt : c.toNat > 0x60 := by rcases hT with h | h <;> omega
@@ -1136,7 +1238,8 @@ theorem sim_expansion (cx : Btclib.Ctx) (sc : Bytes) (st : St) (cst : Core.State
         simp only [Except.map]
         simp only [coreRes] at hwb
         have hc4 : cnt + 1 = ((cst.m.opCount + 1 : Nat) : Int) := by omega
-        exact ⟨3, _, by omega, by omega, ⟨rfl, rfl, h3, hc4⟩, rfl, iter3_more cx _ _ hwb⟩
+        exact ⟨3, { stack := s', alt := a', cond := cond, opCodeNum := cnt + 1, scriptIndex := idx + 1, s := r, codesepOffset := cso },
+            by omega, by omega, ⟨rfl, rfl, h3, hc4, h5⟩, rfl, rfl, iter3_more cx _ _ hwb⟩
 
 
 /-! ### bytes from OP_CHECKSIGADD up -/
@@ -1176,16 +1279,422 @@ theorem disp_high (cx : Btclib.Ctx) (sc : Bytes) (t : Nat) (raw : Bytes) (st1 : 
   unfold dispatch
   simp only [kind_high t ht]
 
-/-! ### OP_CODESEPARATOR (no signature op code reads what it sets) -/
+/-! ### OP_CODESEPARATOR: `codesep_offset = op_code_stops[script_index]` is Core's `pbegincodehash = pc` -/
 
-theorem disp_codesep (cx : Btclib.Ctx) (sc : Bytes) (raw : Bytes) (st1 : St) (s1 : Core.State) (hR : R st1 s1) :
+theorem disp_codesep (cx : Btclib.Ctx) (sc : Bytes) (raw : Bytes) (st1 : St) (s1 : Core.State) (hR : R st1 s1)
+    (hstop : cx.opCodeStops[st1.scriptIndex.toNat]? = some s1.pos) :
     DispOk cx sc 0xab st1 s1 ⟨0xab, [], raw⟩ true := by
-  obtain ⟨h1, h2, h3, h4⟩ := hR
+  obtain ⟨h1, h2, h3, h4, h5⟩ := hR
   have e : Core.stepExec (coreCx cx sc) s1 ⟨0xab, [], raw⟩ true
       = .ok { s1 with m := { s1.m with codeStart := s1.pos, codesepPos := s1.opcodePos } } := rfl
+  have d : dispatch cx 0xab st1 = some (.more { st1 with codesepOffset := s1.pos }) := by
+    show (match cx.opCodeStops[st1.scriptIndex.toNat]? with
+          | none => none
+          | some off => some (Next.more { st1 with codesepOffset := off })) = _
+    rw [hstop]
   unfold DispOk
   rw [e]
-  exact ⟨st1, rfl, ⟨h1, h2, h3, h4⟩, rfl⟩
+  exact ⟨_, d, ⟨h1, h2, h3, h4, rfl⟩, rfl, rfl⟩
+
+/-! ### the signature op codes (both sides end in the same per-signature function: `Sig.Shared`) -/
+
+/-- OP_CHECKSIG -/
+theorem disp_checksig (cx : Btclib.Ctx) (sc : Bytes) (hsh : Shared cx sc) (raw : Bytes) (st1 : St) (s1 : Core.State)
+    (hR : R st1 s1) : DispOk cx sc 0xac st1 s1 ⟨0xac, [], raw⟩ true := by
+  obtain ⟨h1, h2, h3, h4, h5⟩ := hR
+  have e : Core.stepExec (coreCx cx sc) s1 ⟨0xac, [], raw⟩ true
+      = (Core.execPlain (coreCx cx sc) s1.pos s1.opcodePos s1.m 0xac).map fun m => { s1 with m := m } := rfl
+  have d : dispatch cx 0xac st1
+      = (checksigOn cx st1.stack st1.codesepOffset).map fun s => .more { st1 with stack := s } := rfl
+  have hc := checksig_core cx sc hsh s1.pos s1.opcodePos s1.m
+  unfold DispOk
+  rw [e, d, h1, h5]
+  cases hp : Core.execPlain (coreCx cx sc) s1.pos s1.opcodePos s1.m 0xac with
+  | error er =>
+    rw [hp] at hc
+    simp only [okOpt] at hc
+    simp only [Except.map]
+    cases hx : checksigOn cx s1.m.stack s1.m.codeStart with
+    | none => rfl
+    | some s => rw [hx] at hc; cases hc
+  | ok m2 =>
+    rw [hp] at hc
+    simp only [okOpt] at hc
+    simp only [Except.map]
+    cases hx : checksigOn cx s1.m.stack s1.m.codeStart with
+    | none => rw [hx] at hc; cases hc
+    | some s =>
+      rw [hx] at hc
+      simp only [Option.map_some, Option.some.injEq] at hc
+      subst hc
+      exact ⟨_, rfl, ⟨rfl, h2, h3, h4, rfl⟩, rfl, rfl⟩
+
+/-- OP_CHECKMULTISIG -/
+theorem disp_multisig (cx : Btclib.Ctx) (sc : Bytes) (hsh : Shared cx sc) (raw : Bytes) (st1 : St) (s1 : Core.State)
+    (hR : R st1 s1) : DispOk cx sc 0xae st1 s1 ⟨0xae, [], raw⟩ true := by
+  obtain ⟨h1, h2, h3, h4, h5⟩ := hR
+  have e : Core.stepExec (coreCx cx sc) s1 ⟨0xae, [], raw⟩ true
+      = (Core.execMultisig (coreCx cx sc) s1.m false).map fun m => { s1 with m := m } := rfl
+  have d : dispatch cx 0xae st1
+      = (checkMultisigOn cx st1.stack st1.opCodeNum st1.codesepOffset).map
+          fun p => .more { st1 with stack := p.1, opCodeNum := p.2 } := rfl
+  have hc := multisig_core cx sc hsh s1.m 0 false
+  have hm0 : ({ s1.m with opCount := s1.m.opCount + 0 } : Core.Machine) = s1.m := rfl
+  rw [hm0] at hc
+  have hpost : ∀ X : Option (List Bytes × Int), X.bind (postMsig 0 false) = X.bind fun p => if p.2 > 201 then none else some p := by
+    intro X; cases X with
+    | none => rfl
+    | some p => simp [postMsig]
+  unfold DispOk
+  rw [e, d, h1, h4, h5]
+  cases hp : Core.execMultisig (coreCx cx sc) s1.m false with
+  | error er =>
+    rw [hp] at hc
+    simp only [okOpt, Option.map_none] at hc
+    simp only [Except.map]
+    cases hx : checkMultisigOn cx s1.m.stack s1.m.opCount s1.m.codeStart with
+    | none => rfl
+    | some p =>
+      exfalso
+      rw [hx] at hc
+      -- the count the arm leaves is at most 201, so the (vacuous for `d = 0`) recount cannot refuse
+      have hle : p.2 ≤ 201 := by
+        unfold checkMultisigOn at hx
+        split at hx
+        · cases hx
+        · split at hx
+          · cases hx
+          · split at hx
+            · cases hx
+            · rw [count_n] at hx
+              split at hx
+              · cases hx
+              · rename_i cnt hcnt
+                split at hcnt
+                · cases hcnt
+                · cases hcnt
+                  cases hr : checkMultisigRest cx _ _ s1.m.codeStart with
+                  | none => rw [hr] at hx; cases hx
+                  | some s2 => rw [hr] at hx; cases hx; simp only; omega
+      simp [postMsig] at hc
+      omega
+  | ok m2 =>
+    rw [hp] at hc
+    simp only [okOpt, Option.map_some] at hc
+    simp only [Except.map]
+    have hfr := multisig_frame (coreCx cx sc) s1.m m2 false hp
+    cases hx : checkMultisigOn cx s1.m.stack s1.m.opCount s1.m.codeStart with
+    | none => rw [hx] at hc; cases hc
+    | some p =>
+      rw [hx] at hc
+      simp only [Option.bind_some, postMsig, Bool.false_eq_true, if_false] at hc
+      split at hc
+      · cases hc
+      · simp only [Option.some.injEq, Prod.mk.injEq] at hc
+        obtain ⟨hc1, hc2⟩ := hc
+        refine ⟨_, rfl, ⟨hc1, ?_, ?_, ?_, ?_⟩, rfl, rfl⟩
+        · rw [hfr]; exact h2
+        · exact h3
+        · simp only; rw [← hc2]; simp
+        · rw [hfr]
+
+/-- OP_CHECKSIGVERIFY / OP_CHECKMULTISIGVERIFY: the first two passes (the expansion, then the signature op code at the
+    wound-back count and index); what is left is the pass over OP_VERIFY -/
+theorem sig_windback (cx : Btclib.Ctx) (T X : Nat) (hT : (T = 0xad ∧ X = 0xac) ∨ (T = 0xaf ∧ X = 0xae))
+    (stack alt : List Bytes) (cond : List Bool) (cnt idx : Int) (cso : Nat) (rest : Bytes)
+    (hexec : cond.all id = true) (hsize : stack.length + alt.length ≤ 1000) :
+    iter3 cx { stack := stack, alt := alt, cond := cond, opCodeNum := cnt, scriptIndex := idx, s := UInt8.ofNat T :: rest, codesepOffset := cso } =
+      if cnt + 1 > 201 then none
+      else match dispatch cx X { stack := stack, alt := alt, cond := cond, opCodeNum := cnt, scriptIndex := idx,
+                                   s := 0x69 :: rest, codesepOffset := cso } with
+        | some (.more st3) => iter cx st3
+        | x => x := by
+  unfold iter3
+  by_cases hc : cnt + 1 > 201
+  · rcases hT with ⟨rfl, rfl⟩ | ⟨rfl, rfl⟩ <;>
+      (rw [iter_nonpush cx stack alt cond cnt idx cso _ rest hsize (by decide)]
+       simp [hc])
+  · rcases hT with ⟨rfl, rfl⟩ | ⟨rfl, rfl⟩
+    · rw [iter_nonpush cx stack alt cond cnt idx cso _ rest hsize (by decide)]
+      have e1 : dispatch cx 0xad { stack := stack, alt := alt, cond := cond, opCodeNum := cnt + 1, scriptIndex := idx + 1, s := rest, codesepOffset := cso }
+          = some (.more { stack := stack, alt := alt, cond := cond, opCodeNum := cnt + 1 - 2, scriptIndex := idx + 1 - 2, s := 0xac :: 0x69 :: rest, codesepOffset := cso }) := rfl
+      have t : (UInt8.ofNat 0xad).toNat = 0xad := by decide
+      simp only [t, show (0xad : Nat) > 96 from by decide, if_true, hc, if_false, hexec, Bool.not_true, Bool.false_and,
+        Bool.false_eq_true, show Gen.Script.DISABLED_OP_CODES.contains 0xad = false from by decide, e1]
+      rw [iter_nonpush cx stack alt cond _ _ cso _ _ hsize (by decide)]
+      have t2 : (0xac : UInt8).toNat = 0xac := by decide
+      have hc2 : ¬ (cnt + 1 - 2 + 1 > 201) := by omega
+      simp only [t2, show (0xac : Nat) > 96 from by decide, if_true, hc2, if_false, hexec, Bool.not_true, Bool.false_and,
+        Bool.false_eq_true, show Gen.Script.DISABLED_OP_CODES.contains 0xac = false from by decide]
+      have e2 : (cnt + 1 - 2 + 1 : Int) = cnt := by omega
+      have e3 : (idx + 1 - 2 + 1 : Int) = idx := by omega
+      rw [e2, e3]
+      rcases dispatch cx _ _ with _ | (_ | _ | _) <;> rfl
+    · rw [iter_nonpush cx stack alt cond cnt idx cso _ rest hsize (by decide)]
+      have e1 : dispatch cx 0xaf { stack := stack, alt := alt, cond := cond, opCodeNum := cnt + 1, scriptIndex := idx + 1, s := rest, codesepOffset := cso }
+          = some (.more { stack := stack, alt := alt, cond := cond, opCodeNum := cnt + 1 - 2, scriptIndex := idx + 1 - 2, s := 0xae :: 0x69 :: rest, codesepOffset := cso }) := rfl
+      have t : (UInt8.ofNat 0xaf).toNat = 0xaf := by decide
+      simp only [t, show (0xaf : Nat) > 96 from by decide, if_true, hc, if_false, hexec, Bool.not_true, Bool.false_and,
+        Bool.false_eq_true, show Gen.Script.DISABLED_OP_CODES.contains 0xaf = false from by decide, e1]
+      rw [iter_nonpush cx stack alt cond _ _ cso _ _ hsize (by decide)]
+      have t2 : (0xae : UInt8).toNat = 0xae := by decide
+      have hc2 : ¬ (cnt + 1 - 2 + 1 > 201) := by omega
+      simp only [t2, show (0xae : Nat) > 96 from by decide, if_true, hc2, if_false, hexec, Bool.not_true, Bool.false_and,
+        Bool.false_eq_true, show Gen.Script.DISABLED_OP_CODES.contains 0xae = false from by decide]
+      have e2 : (cnt + 1 - 2 + 1 : Int) = cnt := by omega
+      have e3 : (idx + 1 - 2 + 1 : Int) = idx := by omega
+      rw [e2, e3]
+      rcases dispatch cx _ _ with _ | (_ | _ | _) <;> rfl
+
+theorem checksigOn_len (cx : Btclib.Ctx) (stack s : List Bytes) (off : Nat) (h : checksigOn cx stack off = some s) :
+    s.length ≤ stack.length := by
+  unfold checksigOn at h
+  rcases stack with _ | ⟨pk, _ | ⟨sig, r⟩⟩
+  · cases h
+  · cases h
+  · simp only at h
+    split at h
+    · cases h
+    · split at h
+      · cases h
+      · cases h; simp
+
+theorem checkMultisigRest_len (cx : Btclib.Ctx) (r1 s : List Bytes) (n : Int) (off : Nat)
+    (h : checkMultisigRest cx r1 n off = some s) : s.length ≤ r1.length := by
+  unfold checkMultisigRest at h
+  split at h
+  · cases h
+  · split at h
+    · cases h
+    · rename_i ns r2 hd1
+      have l1 : r2.length + 1 ≤ r1.length := by
+        have := congrArg List.length hd1
+        simp only [List.length_drop, List.length_cons] at this; omega
+      split at h
+      · cases h
+      · split at h
+        · cases h
+        · split at h
+          · cases h
+          · simp only at h
+            split at h
+            · cases h
+            · rename_i dummy r3 hd2
+              have l2 : r3.length + 1 ≤ r2.length := by
+                have := congrArg List.length hd2
+                simp only [List.length_drop, List.length_cons] at this; omega
+              split at h
+              · cases h
+              · split at h
+                · cases h
+                · split at h
+                  · cases h; simp only [List.length_cons]; omega
+                  · split at h
+                    · cases h
+                    · cases h; simp only [List.length_cons]; omega
+
+theorem checkMultisigOn_len (cx : Btclib.Ctx) (stack : List Bytes) (c : Int) (off : Nat) (p : List Bytes × Int)
+    (h : checkMultisigOn cx stack c off = some p) : p.1.length ≤ stack.length := by
+  unfold checkMultisigOn at h
+  split at h
+  · cases h
+  · split at h
+    · cases h
+    · split at h
+      · cases h
+      · split at h
+        · cases h
+        · cases hr : checkMultisigRest cx _ _ off with
+          | none => rw [hr] at h; cases h
+          | some s2 =>
+            rw [hr] at h; cases h
+            have := checkMultisigRest_len cx _ _ _ _ hr
+            simp only [List.length_cons]; omega
+
+/-- the pass over OP_VERIFY that ends an expansion -/
+theorem verify_pass (cx : Btclib.Ctx) (stack alt : List Bytes) (cond : List Bool) (cnt idx : Int) (cso : Nat) (rest : Bytes)
+    (hexec : cond.all id = true) (hsize : stack.length + alt.length ≤ 1000) :
+    iter cx { stack := stack, alt := alt, cond := cond, opCodeNum := cnt, scriptIndex := idx, s := 0x69 :: rest, codesepOffset := cso } =
+      if cnt + 1 > 201 then none
+      else match stack with
+        | top :: r => if toBool top then some (.more { stack := r, alt := alt, cond := cond, opCodeNum := cnt + 1,
+                                                       scriptIndex := idx + 1, s := rest, codesepOffset := cso }) else none
+        | [] => none := by
+  have := iter_operation cx 0x69 (Or.inr (Or.inr (Or.inl rfl))) stack alt cond cnt idx cso rest hexec hsize
+  have e : (UInt8.ofNat 0x69 : UInt8) = 0x69 := rfl
+  rw [e] at this
+  rw [this]
+  by_cases hc : cnt + 1 > 201
+  · simp [hc]
+  · simp only [hc, if_false]
+    rcases stack with _ | ⟨top, r⟩
+    · rfl
+    · show (match (if toBool top then some (OpRes.done r alt) else none) with
+          | none => none
+          | some (.done s a) => _
+          | some (.expand s a rr) => _) = _
+      by_cases ht : toBool top = true <;> simp [ht]
+
+/-- OP_CHECKSIGVERIFY / OP_CHECKMULTISIGVERIFY in an executing branch: three passes of btclib's loop (the expansion, the
+    signature op code at the wound-back count, OP_VERIFY) against one step of Core's -/
+theorem sim_expansion_sig (cx : Btclib.Ctx) (sc : Bytes) (hsh : Shared cx sc) (st : St) (cst : Core.State) (c : UInt8) (r : Bytes)
+    (hR : R st cst) (hsz : st.stack.length + st.alt.length ≤ 1000) (hs : st.s = c :: r)
+    (hT : c.toNat = 0xad ∨ c.toNat = 0xaf) (hexec : cst.vfExec.all id = true) :
+    SimOp cx sc st cst ⟨c.toNat, [], [c]⟩ r := by
+  obtain ⟨stack, alt, cond, cnt, idx, s, cso⟩ := st
+  obtain ⟨h1, h2, h3, h4, h5⟩ := hR
+  simp only at h1 h2 h3 h4 h5 hs hsz
+  subst hs
+  have hall : cond.all id = true := by rw [h3, all_snoc_true]; exact hexec
+  subst h1 h2 h4 h5
+  have hc : UInt8.ofNat c.toNat = c := by simp
+  have hcnt : c.toNat > 0x60 := by rcases hT with h | h <;> omega
+  have hnd : Core.isDisabled c.toNat = false := by rcases hT with h | h <;> (rw [h]; rfl)
+  have hncs : (c.toNat == Core.OP_CODESEPARATOR) = false := by rcases hT with h | h <;> (rw [h]; rfl)
+  unfold SimOp
+  simp only [Core.stepChecks, sv_counted, Bool.true_and, List.length_nil, Core.MAX_SCRIPT_ELEMENT_SIZE,
+    show ¬ (0 > 520) by omega, if_false, List.length_cons, hcnt, decide_true, hnd, hncs, Bool.false_and,
+    Bool.false_eq_true, if_true]
+  rcases hT with hT | hT
+  · -- OP_CHECKSIGVERIFY
+    have hwb := sig_windback cx 0xad 0xac (Or.inl ⟨rfl, rfl⟩) cst.m.stack cst.m.alt cond cst.m.opCount idx cst.m.codeStart r hall hsz
+    rw [← hT, hc] at hwb
+    by_cases hover : (cst.m.opCount : Int) + 1 > 201
+    · have : cst.m.opCount + 1 > Core.MAX_OPS_PER_SCRIPT := by
+        simp only [Core.MAX_OPS_PER_SCRIPT]; omega
+      simp only [this, decide_true, if_true, Except.bind]
+      apply iter3_none
+      rw [hwb]; simp [hover]
+    · have hno : ¬ (cst.m.opCount + 1 > Core.MAX_OPS_PER_SCRIPT) := by
+        simp only [Core.MAX_OPS_PER_SCRIPT]; omega
+      simp only [hno, decide_false, Bool.false_eq_true, if_false, Except.bind, hexec]
+      simp only [hover, if_false] at hwb
+      have d : dispatch cx 0xac { stack := cst.m.stack, alt := cst.m.alt, cond := cond, opCodeNum := cst.m.opCount, scriptIndex := idx, s := 0x69 :: r, codesepOffset := cst.m.codeStart }
+          = (checksigOn cx cst.m.stack cst.m.codeStart).map fun s' => .more { stack := s', alt := cst.m.alt, cond := cond, opCodeNum := cst.m.opCount, scriptIndex := idx, s := 0x69 :: r, codesepOffset := cst.m.codeStart } := rfl
+      rw [d] at hwb
+      have e : ∀ s1 : Core.State, Core.stepExec (coreCx cx sc) s1 ⟨c.toNat, [], [c]⟩ true
+          = (Core.execPlain (coreCx cx sc) s1.pos s1.opcodePos s1.m 0xad).map fun m => { s1 with m := m } := by
+        intro s1; rw [hT]; rfl
+      rw [e]
+      have hcv := checksigverify_core cx sc hsh (cst.pos + 1) cst.opcodePos { cst.m with opCount := cst.m.opCount + 1 }
+      simp only
+      cases hx : checksigOn cx cst.m.stack cst.m.codeStart with
+      | none =>
+        rw [hx] at hwb hcv
+        simp only [Option.bind_none, Option.map_none] at hcv
+        cases hp : Core.execPlain (coreCx cx sc) (cst.pos + 1) cst.opcodePos { cst.m with opCount := cst.m.opCount + 1 } 0xad with
+        | error er => simp only [Except.map]; exact iter3_none cx _ hwb
+        | ok m2 => rw [hp] at hcv; cases hcv
+      | some s' =>
+        rw [hx] at hwb hcv
+        have hs' : s'.length + cst.m.alt.length ≤ 1000 := by have := checksigOn_len cx _ s' _ hx; omega
+        simp only [Option.map_some] at hwb
+        rw [verify_pass cx s' cst.m.alt cond cst.m.opCount idx cst.m.codeStart r hall hs'] at hwb
+        simp only [hover, if_false] at hwb
+        simp only [Option.bind_some] at hcv
+        cases hp : Core.execPlain (coreCx cx sc) (cst.pos + 1) cst.opcodePos { cst.m with opCount := cst.m.opCount + 1 } 0xad with
+        | error er =>
+          rw [hp] at hcv
+          simp only [Except.map]
+          apply iter3_none
+          rw [hwb]
+          rcases s' with _ | ⟨top, r'⟩
+          · rfl
+          · simp only [okOpt] at hcv
+            simp only
+            by_cases ht : toBool top = true
+            · simp [ht] at hcv
+            · simp [ht]
+        | ok m2 =>
+          rw [hp] at hcv
+          simp only [Except.map]
+          rcases s' with _ | ⟨top, r'⟩
+          · simp [okOpt] at hcv
+          · simp only [okOpt] at hcv
+            by_cases ht : toBool top = true
+            · simp only [ht, if_true, Option.map_some, Option.some.injEq] at hcv hwb
+              subst hcv
+              have hc4 : (cst.m.opCount : Int) + 1 = ((cst.m.opCount + 1 : Nat) : Int) := by omega
+              exact ⟨3, _, by omega, by omega, ⟨rfl, rfl, h3, hc4, rfl⟩, rfl, rfl, iter3_more cx _ _ hwb⟩
+            · simp [ht] at hcv
+  · -- OP_CHECKMULTISIGVERIFY
+    have hwb := sig_windback cx 0xaf 0xae (Or.inr ⟨rfl, rfl⟩) cst.m.stack cst.m.alt cond cst.m.opCount idx cst.m.codeStart r hall hsz
+    rw [← hT, hc] at hwb
+    by_cases hover : (cst.m.opCount : Int) + 1 > 201
+    · have : cst.m.opCount + 1 > Core.MAX_OPS_PER_SCRIPT := by
+        simp only [Core.MAX_OPS_PER_SCRIPT]; omega
+      simp only [this, decide_true, if_true, Except.bind]
+      apply iter3_none
+      rw [hwb]; simp [hover]
+    · have hno : ¬ (cst.m.opCount + 1 > Core.MAX_OPS_PER_SCRIPT) := by
+        simp only [Core.MAX_OPS_PER_SCRIPT]; omega
+      simp only [hno, decide_false, Bool.false_eq_true, if_false, Except.bind, hexec]
+      simp only [hover, if_false] at hwb
+      have d : dispatch cx 0xae { stack := cst.m.stack, alt := cst.m.alt, cond := cond, opCodeNum := cst.m.opCount, scriptIndex := idx, s := 0x69 :: r, codesepOffset := cst.m.codeStart }
+          = (checkMultisigOn cx cst.m.stack cst.m.opCount cst.m.codeStart).map fun p => .more { stack := p.1, alt := cst.m.alt, cond := cond, opCodeNum := p.2, scriptIndex := idx, s := 0x69 :: r, codesepOffset := cst.m.codeStart } := rfl
+      rw [d] at hwb
+      have e : ∀ s1 : Core.State, Core.stepExec (coreCx cx sc) s1 ⟨c.toNat, [], [c]⟩ true
+          = (Core.execMultisig (coreCx cx sc) s1.m true).map fun m => { s1 with m := m } := by
+        intro s1; rw [hT]; rfl
+      rw [e]
+      have hcv := multisig_core cx sc hsh cst.m 1 true
+      simp only
+      cases hx : checkMultisigOn cx cst.m.stack cst.m.opCount cst.m.codeStart with
+      | none =>
+        rw [hx] at hwb hcv
+        simp only [Option.bind_none] at hcv
+        cases hp : Core.execMultisig (coreCx cx sc) { cst.m with opCount := cst.m.opCount + 1 } true with
+        | error er => simp only [Except.map]; exact iter3_none cx _ hwb
+        | ok m2 => rw [hp] at hcv; simp [okOpt] at hcv
+      | some p =>
+        rw [hx] at hwb hcv
+        have hs' : p.1.length + cst.m.alt.length ≤ 1000 := by have := checkMultisigOn_len cx _ _ _ p hx; omega
+        simp only [Option.map_some] at hwb
+        rw [verify_pass cx p.1 cst.m.alt cond p.2 idx cst.m.codeStart r hall hs'] at hwb
+        simp only [Option.bind_some, postMsig, if_true] at hcv
+        cases hp : Core.execMultisig (coreCx cx sc) { cst.m with opCount := cst.m.opCount + 1 } true with
+        | error er =>
+          rw [hp] at hcv
+          simp only [Except.map]
+          apply iter3_none
+          rw [hwb]
+          simp only [okOpt, Option.map_none] at hcv
+          by_cases hq : p.2 + 1 > 201
+          · simp [hq]
+          · have hq' : ¬ (p.2 + ((1 : Nat) : Int) > 201) := by simpa using hq
+            simp only [hq, if_false]
+            simp only [hq', if_false] at hcv
+            rcases hp1 : p.1 with _ | ⟨top, r'⟩
+            · rfl
+            · rw [hp1] at hcv
+              simp only at hcv ⊢
+              by_cases ht : toBool top = true
+              · simp [ht] at hcv
+              · simp [ht]
+        | ok m2 =>
+          rw [hp] at hcv
+          have hfr := multisig_frame (coreCx cx sc) _ m2 true hp
+          simp only [Except.map]
+          simp only [okOpt, Option.map_some] at hcv
+          by_cases hq : p.2 + 1 > 201
+          · have hq' : (p.2 + ((1 : Nat) : Int) > 201) := by simpa using hq
+            simp [hq'] at hcv
+            omega
+          · have hq' : ¬ (p.2 + ((1 : Nat) : Int) > 201) := by simpa using hq
+            simp only [hq', if_false] at hcv
+            simp only [hq, if_false] at hwb
+            rcases hp1 : p.1 with _ | ⟨top, r'⟩
+            · rw [hp1] at hcv; cases hcv
+            · rw [hp1] at hcv hwb
+              simp only at hcv hwb
+              by_cases ht : toBool top = true
+              · simp only [ht, if_true, Option.some.injEq, Prod.mk.injEq] at hcv hwb
+                obtain ⟨hc1, hc2⟩ := hcv
+                refine ⟨3, _, by omega, by omega, ⟨hc1, ?_, h3, ?_, ?_⟩, rfl, rfl, iter3_more cx _ _ hwb⟩
+                · rw [hfr]
+                · simp only; rw [← hc2]; simp
+                · rw [hfr]
+              · simp [ht] at hcv
 
 /-- under CONST_SCRIPTCODE a legacy script holding OP_CODESEPARATOR is refused wherever the op code stands -/
 theorem step_codesep_rejects (cx : Core.Ctx) (op : Op) (hcode : op.code = 0xab)
@@ -1216,7 +1725,7 @@ theorem step_codesep_rejects (cx : Core.Ctx) (op : Op) (hcode : op.code = 0xab)
 def coveredCode (c : Nat) : Bool :=
   c ≤ 0x4e || (0x51 ≤ c && c ≤ 0x60) || c == 0x61 || nopNs.contains c || Refine.covered.contains c || c == 0x79 || c == 0x7a
   || c == 0xb1 || c == 0xb2 || c == 0x63 || c == 0x64 || c == 0x65 || c == 0x66 || c == 0x67 || c == 0x68 || badOps.contains c
-  || c == 0x88 || c == 0x9d || decide (0xba ≤ c) || c == 0xab
+  || c == 0x88 || c == 0x9d || decide (0xba ≤ c) || c == 0xab || c == 0xac || c == 0xad || c == 0xae || c == 0xaf
 
 /-- the scripts the loop-level refinement speaks about: every instruction Core's walk reads is a covered op code -/
 def covered (script : Bytes) : Bool := (parse script).1.all (fun op => coveredCode op.code)
@@ -1254,10 +1763,12 @@ theorem pick_roll_facts : ∀ t, (t = 0x79 ∨ t = 0x7a) →
   intro t h; rcases h with rfl | rfl <;> decide
 
 /-- one covered instruction: btclib's passes simulate Core's step -/
-theorem sim_op_covered (cx : Btclib.Ctx) (sc : Bytes) (st : St) (cst : Core.State) (op : Op) (rest : Bytes)
+theorem sim_op_covered (cx : Btclib.Ctx) (sc : Bytes) (hsh : Shared cx sc) (st : St) (cst : Core.State) (op : Op) (rest : Bytes)
     (hR : R st cst) (hsz : st.stack.length + st.alt.length ≤ 1000) (hg : getOp st.s = some (op, rest))
     (hcov : coveredCode op.code = true)
-    (hcsf : op.code = 0xab → (Core.has cx.flags Core.FLAG_CONST_SCRIPTCODE && !cx.segwit) = false) :
+    (hcsf : op.code = 0xab → (Core.has cx.flags Core.FLAG_CONST_SCRIPTCODE && !cx.segwit) = false)
+    (hidx : -1 ≤ st.scriptIndex)
+    (hstop : op.code = 0xab → cx.opCodeStops[(st.scriptIndex + 1).toNat]? = some (cst.pos + op.raw.length)) :
     SimOp cx sc st cst op rest := by
   cases hs : st.s with
   | nil => rw [hs] at hg; simp [getOp] at hg
@@ -1282,8 +1793,10 @@ theorem sim_op_covered (cx : Btclib.Ctx) (sc : Bytes) (st : St) (cst : Core.Stat
           simp [this]
       by_cases hexp : (c.toNat = 0x88 ∨ c.toNat = 0x9d) ∧ cst.vfExec.all id = true
       · exact sim_expansion cx sc st cst c rest hR hsz hs hexp.1 hexp.2
+      by_cases hexs : (c.toNat = 0xad ∨ c.toNat = 0xaf) ∧ cst.vfExec.all id = true
+      · exact sim_expansion_sig cx sc hsh st cst c rest hR hsz hs hexs.1 hexs.2
       apply sim_nonpush cx sc st cst c rest hR hsz hs hp hcs
-      intro st1 s1 hR1 _ _ _ _ hv _ _ hh
+      intro st1 s1 hR1 _ _ _ _ hv _ _ hsi hpos hh
       -- which family
       have hrange_of : ∀ (p : ¬ (99 ≤ c.toNat ∧ c.toNat < 105)), cst.vfExec.all id = true := by
         intro p; rcases hh with h | h
@@ -1291,7 +1804,7 @@ theorem sim_op_covered (cx : Btclib.Ctx) (sc : Bytes) (st : St) (cst : Core.Stat
         · exact absurd h p
       simp only [coveredCode, Bool.or_eq_true, decide_eq_true_eq, Bool.and_eq_true, beq_iff_eq,
         List.contains_iff_mem] at hcov
-      rcases hcov with ((((((((((((((((((h | h) | h) | h) | h) | h) | h) | h) | h) | h) | h) | h) | h) | h) | h) | h) | h) | h) | h) | h
+      rcases hcov with ((((((((((((((((((((((h | h) | h) | h) | h) | h) | h) | h) | h) | h) | h) | h) | h) | h) | h) | h) | h) | h) | h) | h) | h) | h) | h) | h
       · -- OP_0
         have h0 : c.toNat = 0 := by omega
         rw [hrange_of (by omega)]
@@ -1338,7 +1851,16 @@ theorem sim_op_covered (cx : Btclib.Ctx) (sc : Bytes) (st : St) (cst : Core.Stat
       · rw [hrange_of (by omega)]
         exact disp_high cx sc _ _ st1 s1 h
       · rw [hrange_of (by omega), h]
-        exact disp_codesep cx sc _ st1 s1 hR1
+        refine disp_codesep cx sc _ st1 s1 hR1 ?_
+        have := hstop h
+        rw [hsi, hpos]
+        simpa using this
+      · rw [hrange_of (by omega), h]
+        exact disp_checksig cx sc hsh _ st1 s1 hR1
+      · exact absurd ⟨Or.inl h, hrange_of (by omega)⟩ hexs
+      · rw [hrange_of (by omega), h]
+        exact disp_multisig cx sc hsh _ st1 s1 hR1
+      · exact absurd ⟨Or.inr h, hrange_of (by omega)⟩ hexs
 
 
 theorem parseOps_length (f : Nat) (s : Bytes) : (parseOps f s).1.length ≤ s.length := by
@@ -1355,8 +1877,10 @@ theorem parseOps_length (f : Nat) (s : Bytes) : (parseOps f s).1.length ≤ s.le
       simp only [List.length_cons]; omega
 
 /-- T3 at loop level: on every script made of covered op codes, from every initial stack within the limit, under every
-    flag set, the btclib-shaped interpreter and Core's `EvalScript` give the same verdict and the same final stack -/
+    flag set, the btclib-shaped interpreter and Core's `EvalScript` give the same verdict and the same final stack, when
+    btclib's `op_checksig` is Core's per-signature sequence over the checker Core's side uses (`hsig`) -/
 theorem eval_refines (cx : Btclib.Ctx) (script : Bytes) (stack : List Bytes)
+    (hsig : cx.opChecksig = sharedChecksig cx.checker cx.flags cx.segwit)
     (hcov : covered script = true) (hsz : stack.length ≤ 1000) :
     Btclib.eval cx script stack = toOut (Core.evalWith (coreCx cx script) stack 0) := by
   unfold Btclib.eval Core.evalWith
@@ -1387,18 +1911,33 @@ theorem eval_refines (cx : Btclib.Ctx) (script : Bytes) (stack : List Bytes)
         && !cx.segwit) = false := by simpa using hpre
     simp only [Gen.Script.N_MAX_SCRIPT_SIZE, Core.MAX_SCRIPT_SIZE, hlen, if_false, hpre', Bool.false_eq_true,
       decide_false, Bool.and_false]
-    have hsim := sim_loop cx script
-      (fun st cst op rest hR hs hg hin => sim_op_covered cx script st cst op rest hR hs hg
+    generalize hcx' : ({ cx with scriptBytes := script, opCodeStops := if (parse script).1.any (fun o => o.code == 0xab) then (opCodeSpans script).map (·.2.2) else [] } : Btclib.Ctx) = cx'
+    have hcc : coreCx cx' script = coreCx cx script := by rw [← hcx']; rfl
+    have hfl' : cx'.flags = cx.flags := by rw [← hcx']
+    have hsg' : cx'.segwit = cx.segwit := by rw [← hcx']
+    have hsh : Shared cx' script := by
+      rw [← hcx']; exact ⟨hsig, rfl⟩
+    have hst : (parse script).1.any (fun o => o.code == 0xab) = true →
+        cx'.opCodeStops = (spansOf (parse script).1 0).map (·.2.2) := by
+      intro h; rw [← hcx']; simp only [h, if_true]; rw [opCodeSpans_eq]
+    have hsim := sim_loop cx' script
+      (fun st cst op rest hR hs hg hin hidx hstop => sim_op_covered cx' script hsh st cst op rest hR hs hg
         (List.all_eq_true.mp hcov op hin)
         (fun hc => by
           have hany : (parse script).1.any (fun o => o.code == 0xab) = true :=
             List.any_eq_true.mpr ⟨op, hin, by simp [hc]⟩
           rw [hany, Bool.true_and] at hpre'
-          exact hpre'))
+          rw [hfl', hsg']
+          exact hpre')
+        hidx
+        (fun hc => by
+          have hany : (parse script).1.any (fun o => o.code == 0xab) = true :=
+            List.any_eq_true.mpr ⟨op, hin, by simp [hc]⟩
+          rw [hst hany]; exact hstop))
       script.length script { stack := stack, s := script } { m := { stack := stack, weightLeft := 0 } }
-      (3 * script.length + 2) rfl ⟨rfl, rfl, rfl, rfl⟩ (by simpa using hsz) (Nat.le_refl _)
-      (fun op h => h) (by have := parseOps_length script.length script; omega)
-    rw [hsim]
+      (3 * script.length + 2) [] rfl ⟨rfl, rfl, rfl, rfl, rfl⟩ (by simpa using hsz) (Nat.le_refl _)
+      rfl rfl rfl (by have := parseOps_length script.length script; omega)
+    rw [hsim, hcc]
     show finish (Core.run (coreCx cx script) (parse script).1 _) (parse script).2 = _
     cases Core.run (coreCx cx script) (parse script).1 { m := { stack := stack, weightLeft := 0 } } with
     | error e => rfl
